@@ -247,6 +247,68 @@ func (f *FrameHeader) WriteTo(w *bufio.Writer) (wb int64, err error) {
 	return wb, err
 }
 
+// writeLimited writes the frame like WriteTo, except that a header block which
+// does not fit in max octets, the peer's SETTINGS_MAX_FRAME_SIZE, goes out as a
+// HEADERS frame followed by as many CONTINUATION frames as it takes, with
+// END_HEADERS on the last one (RFC 7540 4.2, 6.10). The frames are written back
+// to back, so no other frame can end up inside the block.
+func (f *FrameHeader) writeLimited(w *bufio.Writer, max uint32) (wb int64, err error) {
+	h, ok := f.fr.(*Headers)
+	if !ok || max == 0 || !h.endHeaders {
+		return f.WriteTo(w)
+	}
+
+	// what the HEADERS frame carries besides the block fragment
+	room := int(max)
+	if h.priority {
+		room -= 5
+	}
+	if h.hasPadding {
+		room -= 256
+	}
+
+	if room <= 0 || len(h.rawHeaders) <= room {
+		return f.WriteTo(w)
+	}
+
+	block := h.rawHeaders
+
+	h.rawHeaders = block[:room]
+	h.endHeaders = false
+
+	wb, err = f.WriteTo(w)
+
+	h.rawHeaders = block
+	h.endHeaders = true
+
+	for rest := block[room:]; err == nil && len(rest) > 0; {
+		n := len(rest)
+		if n > int(max) {
+			n = int(max)
+		}
+
+		fr := AcquireFrameHeader()
+		fr.SetStream(f.stream)
+
+		c := AcquireFrame(FrameContinuation).(*Continuation)
+		c.SetHeader(rest[:n])
+		c.SetEndHeaders(n == len(rest))
+
+		fr.SetBody(c)
+
+		var nn int64
+
+		nn, err = fr.WriteTo(w)
+		wb += nn
+
+		ReleaseFrameHeader(fr)
+
+		rest = rest[n:]
+	}
+
+	return wb, err
+}
+
 func (f *FrameHeader) Body() Frame {
 	return f.fr
 }
